@@ -456,6 +456,31 @@ func runCmpSearch(c *Ctx) {
 			continue
 		}
 		keyP, recP := "p:"+fn.Params[0].Name(), "p:"+fn.Params[1].Name()
+		// no verdict before the first column is looked at — except what cannot depend on the columns: an empty key
+		// (true), and for Equals a record with fewer fields than the key (never equal). For Search a short record is
+		// NOT decided by its length: its first differing column decides, and only an all-equal prefix makes it smaller
+		if h != nil && h.Parent() == fn {
+			pre, okPre := EnumLits(fn.Blocks[0], 0, TabOpts{Termer: t, EventOf: callEvents(p),
+				Stop: func(in ssa.Instruction, ps *pathState) bool { return in == h.Instrs[0] }})
+			if !okPre {
+				c.Undecided(name+": before the loop", fn.Pos(), "too many paths")
+			}
+			for _, lp := range pre {
+				if lp.Exit == nil {
+					continue
+				}
+				retV := t.Term(lp.Exit.Results[0], lp.PS)
+				pr := newProver(p, t, lp)
+				lk, lr := "len("+keyP+")", "len("+recP+")"
+				pr.g.addLE(zero, lk, 0)
+				pr.g.addLE(zero, lr, 0)
+				pr.applyDisj()
+				emptyKey := pr.g.entailsLE(lk, zero, 0)
+				shortRec := pr.g.entailsLE(lr, lk, -1)
+				good := (retV == "const:true" && emptyKey) || (name == "Equals" && retV == "const:false" && shortRec)
+				c.Check(good, name+": before the loop:"+pathSig(lp, 99), lp.Exit.Pos(), "%s answers %s before comparing any column on path [%s]; only an empty key (true)%s may be decided there: a record shorter than the key is still ordered by its first differing column", name, retV, pathDesc(lp), map[bool]string{true: " or a record shorter than the key (false)", false: ""}[name == "Equals"])
+			}
+		}
 		// loop index term: the index used for key[...]
 		for _, lp := range paths {
 			pk := name + ":" + pathSig(lp, 99)
@@ -692,4 +717,14 @@ func checkNocase(p *Program, fn *ssa.Function) (bool, string) {
 		}
 	}
 	return true, "runes 65..90 map to lower case, every other probed rune is unchanged"
+}
+
+// isLoopHeader: b is the target of a back-edge.
+func isLoopHeader(b *ssa.BasicBlock) bool {
+	for _, pr := range b.Preds {
+		if b.Dominates(pr) {
+			return true
+		}
+	}
+	return false
 }
